@@ -569,6 +569,7 @@ def call_and_check(name, P):
 
 def task_randomized(task):
     name, P = task
+    max_execs = MAX_EXECS if _TIER == "quick" else 20 * MAX_EXECS
     with warnings.catch_warnings():
         warnings.simplefilter("ignore")
         call, hz, oracle, expected = call_and_check(name, P)
@@ -590,7 +591,7 @@ def task_randomized(task):
                     return ("raise", e)
 
         try:
-            for trace, (kind, res) in CH.explore(run, max_execs=MAX_EXECS):
+            for trace, (kind, res) in CH.explore(run, max_execs=max_execs):
                 n += 1
                 choices = [c for _, c, _ in trace]
                 if kind == "raise":
@@ -671,7 +672,12 @@ def task_seeds(seed):
     return {"n": n, "viols": viols[:3]}
 
 
+_TIER = "quick"
+
+
 def run(tier, ev):
+    global _TIER
+    _TIER = tier
     q = tier == "quick"
     viols = []
     ev.cov["rule"] = ("index decodings exhaustively; deterministic generators over parameter grids (flag complexes on every graph "
@@ -709,7 +715,7 @@ def run(tier, ev):
         name, P = r["task"]
         ev.cov["parts"].setdefault("randomized", {})[f"{name}{_short(P)}"] = {"executions": r["n"], "distinct_outcomes": r["outcomes"]}
         if r["capped"]:
-            ev.cap(f"{name}({P}): more than {MAX_EXECS} outcome sequences; explored the first {MAX_EXECS} depth-first")
+            ev.cap(f"{name}({P}): more than {MAX_EXECS if q else 20 * MAX_EXECS} outcome sequences; explored that many depth-first")
         for mon, msg, choices in r["viols"]:
             viols.append(Violation(PROP, mon, msg, {"check": "c16", "kind": "randomized", "name": name, "P": P, "choices": choices},
                                    {"gen": name}))
